@@ -118,7 +118,16 @@ func hugeHeaderResponse() []byte {
 	return hugeBytes
 }
 
-const goodBody = `{"tok":"j7","list":[1,2]}`
+// AnnouncedLength: letters whose Content-Length header announces an absurd number of bytes (spec/Responses.tla
+// AnnouncedLens: 2^62, 2^63-1, 2^63 = one more than int64 holds, 10^20); 25 bytes follow, then the peer hangs up
+var AnnouncedLength = map[string]string{
+	"cl2p62":  "4611686018427387904",
+	"clmax64": "9223372036854775807",
+	"cl2p63":  "9223372036854775808",
+	"cl1e20":  "100000000000000000000",
+}
+
+const goodBody =`{"tok":"j7","list":[1,2]}`
 const longTok = "h123456789012345"
 
 func okResponse(code int, body string, tok string) []byte {
@@ -252,7 +261,12 @@ func (t *RawTarget) serve(c net.Conn) {
 		case letter == "trunc":
 			c.Write([]byte("HTTP/1.1 200 OK\r\nX-Tok: " + longTok + "\r\nContent-Length: 100\r\n\r\n{\"tok\":\"j"))
 			return
-		case letter == "badchunk":
+		case AnnouncedLength[letter] != "":
+		// the ANNOUNCED length is the peer's number: absurd values (2^31 .. 2^63-1, and one that does not fit int64),
+		// then a few bytes and a close - or, with a well-formed small body behind an absurd announcement, the same
+		c.Write([]byte("HTTP/1.1 200 OK\r\nContent-Type: application/json\r\nX-Tok: " + longTok + "\r\nContent-Length: " + AnnouncedLength[letter] + "\r\n\r\n" + goodBody))
+		return
+	case letter == "badchunk":
 			c.Write([]byte("HTTP/1.1 200 OK\r\nX-Tok: " + longTok + "\r\nTransfer-Encoding: chunked\r\n\r\nZZZ\r\n{\"tok\"\r\n"))
 			return
 		case letter == "badstatus":
